@@ -5,15 +5,105 @@ B = "graphql.language.block_string"
 
 def install(w):
     w.define("WS", "c", "c == 32 or c == 9")
+    # lws(s): the number of leading WhiteSpace characters of s - an uninterpreted function whose
+    # three defining facts are added whenever a term is built
+    import z3
+    from pyvc import sym
+    from pyvc.sym import VInt, VStr
+    LWS = z3.Function("lws", sym.ArrS, sym.I, sym.I)
+
+    def f_lws(it, s_):
+        from theories.val import canon_str
+        from pyvc.sym import VOpaque, VAtom
+        if isinstance(s_, (VOpaque, VAtom)):
+            return it.fresh_int("undef")      # undefined operand inside a guarded clause
+        arr, n = canon_str(it, s_) if not isinstance(s_, VStr) else _canon(it, s_)
+        r = LWS(arr, n)
+        bound = getattr(it, "bound_vars", [])
+        if not _mentions(r, bound):
+            # the three defining facts, for ground terms (instances under a quantifier of a clause
+            # get none: the proofs need them for the current line only)
+            k = z3.Int(it.namer.fresh("k"))
+            ws = lambda c: z3.Or(c == 32, c == 9)   # noqa: E731
+            it.sadd(z3.And(0 <= r, r <= n))
+            it.sadd(z3.ForAll([k], z3.Implies(z3.And(0 <= k, k < r), ws(z3.Select(arr, k)))))
+            it.sadd(z3.Or(r == n, z3.Not(ws(z3.Select(arr, r)))))
+        return VInt(r)
+
+    def _mentions(t, consts):
+        if not consts:
+            return False
+        ids = {c.get_id() for c in consts}
+        todo, seen = [t], set()
+        while todo:
+            x = todo.pop()
+            i = x.get_id()
+            if i in ids:
+                return True
+            if i in seen:
+                continue
+            seen.add(i)
+            if z3.is_app(x):
+                todo.extend(x.children())
+            elif z3.is_quantifier(x):
+                todo.append(x.body())
+        return False
+
+    def _canon(it, s_):
+        vv = sym.as_view(s_)
+        if z3.eq(z3.simplify(vv.lo), z3.IntVal(0)):
+            return vv.arr, vv.hi
+        j = z3.Int(it.namer.fresh("j"))
+        return z3.Lambda([j], z3.Select(vv.arr, vv.lo + j)), z3.simplify(vv.hi - vv.lo)
+    w.spec_funcs["lws"] = f_lws
+    w.define("NB", "s", "lws(s) < len(s)")      # a line that is not blank
     # WhiteSpace of the spec is space and tab only: the common indentation of BlockStringValue counts
     # exactly the maximal run of those at the start of a line
     w.contract(f"{B}.leading_white_space", params={"s": "str"}, returns="int",
                ensures=["0 <= result <= len(s)",
                         "forall(i, 0, result, WS(cp(s, i)))",
-                        "result == len(s) or not WS(cp(s, result))"],
+                        "result == len(s) or not WS(cp(s, result))",
+                        "result == lws(s)"],
                raises=[], modifies=[],
                loops={1: {"invariant": ["i == _i", "forall(k, 0, _i, WS(cp(s, k)))"]}},
                props={"C08", "C09"})
+    # BlockStringValue(rawValue) of the specification, on the list of raw lines:
+    #   commonIndent = the smallest indentation of the non-blank lines after the first (if any),
+    #   removed from every line but the first; then leading and trailing blank lines are dropped
+    w.contract(f"{B}.dedent_block_string_lines", params={"lines": ("list", "str")},
+               returns=("list", "str"), ensures=[], raises=[], modifies=[],
+               locals={"first_non_empty_line": "opt:int"},
+               loops={1: {"invariant": [
+                   "forall(j, 1, _i, implies(NB(lines[j]), common_indent <= lws(lines[j])))",
+                   "common_indent == maxsize"
+                   " or exists(j, 1, _i, NB(lines[j]) and lws(lines[j]) == common_indent)",
+                   "implies(first_non_empty_line is None, forall(j, 0, _i, not NB(lines[j])))",
+                   "implies(first_non_empty_line is not None, 0 <= first_non_empty_line"
+                   " and first_non_empty_line < _i)",
+                   "implies(first_non_empty_line is not None, NB(lines[first_non_empty_line]))",
+                   "implies(first_non_empty_line is not None,"
+                   " forall(j, 0, first_non_empty_line, not NB(lines[j])))",
+                   "-1 <= last_non_empty_line and last_non_empty_line < _i",
+                   "implies(last_non_empty_line >= 0, NB(lines[last_non_empty_line]))",
+                   "forall(j, last_non_empty_line + 1, _i, not NB(lines[j]))",
+                   "(last_non_empty_line == -1) == (first_non_empty_line is None)"]}},
+               exit_post=[
+                   # the three quantities the result is cut with
+                   "forall(j, 1, len(lines), implies(NB(lines[j]), common_indent <= lws(lines[j])))",
+                   "common_indent == maxsize"
+                   " or exists(j, 1, len(lines), NB(lines[j]) and lws(lines[j]) == common_indent)",
+                   # (that every line before first_non_empty_line is blank is loop invariant 5 at
+                   # exit, where _i == len(lines); restating it here only costs solver time)
+                   "forall(j, last_non_empty_line + 1, len(lines), not NB(lines[j]))",
+                   "implies(last_non_empty_line >= 0, NB(lines[last_non_empty_line])"
+                   " and NB(lines[first_non_empty_line]))",
+                   "implies(last_non_empty_line == -1, first_non_empty_line == 0)",
+                   # the result: lines first..last, every line but line 0 without the common indent
+                   "len(result) == max(last_non_empty_line - first_non_empty_line + 1, 0)",
+                   "forall(k, 0, len(result), result[k] == ite(first_non_empty_line + k > 0,"
+                   " lines[first_non_empty_line + k][common_indent:], lines[first_non_empty_line + k]))",
+               ],
+               props={"C08", "C09", "C01"})
     # decisions of print_block_string that a print -> lex round trip needs (stated over the
     # function's own line split, which the regex model ties to the lexer's line terminators):
     w.contract(f"{B}.print_block_string", params={"value": "str", "minimize": "bool"},
